@@ -283,22 +283,26 @@ def run(ctx):
     ctx.assumptions = ["serde/lsp-types JSON mapping trusted",
                        "fold_pre (hypothesis of C17_wellformed) is validated on the documents the model's pipeline produces, not proved "
                        "for new_doc in general (it needs the parser's range invariants)",
-                       "the exact-extent statement (C17_full_statement) is validated by correspondence + oracle, not proved"]
+                       "C17_valid speaks about the model; the model is tied to the code by correspondence on this run's documents"]
     if ctx.thorough() and proved:
         if not common.coqchk(ctx):
             ctx.violation(dict(kind="proof", property="C17", detail="coqchk failed or reports axioms", out=ctx.cov.get("coqchk")), no_input=True)
 
 
 EXPLANATION = (
-    "Proved for ALL documents about the model (Props/C17.v): under the explicit predicate fold_pre (token byte ranges in text order; "
-    "the procedure declarations' absolute token ranges lie inside the token vector, are ordered and disjoint, and each contains a "
-    "non-comment token) the handler does not panic and its ranges are well-formed: start <= end < number of lines of the text "
-    "(LSP line model of Spec/LspText.v), end_i <= start_{i+1}; one range per procedure declaration of the tree in tree order; each "
-    "range runs from the line of the first non-comment token of the declaration's token range to the line of the end of its last "
-    "token. fold_pre is evaluated by the judge on every document of the run (valid and malformed) and must hold. NOT proved: that "
-    "for a syntactically valid program the tree's procedure ranges are the `proc`..`}` token spans (needs the parser pipeline "
-    "lemma) - validated by correspondence (model = server on every document, kernel sample) and by the implementation-only oracle "
-    "computed from the generator's token offsets.")
+    "PROVED (Props/C17.v, all closed): (1) C17_valid - THE functional half of the property: for every abstract program of the "
+    "grammar (Spec/Grammar.v, comment slot before every token) and EVERY text that lexes to its token kinds (= every layout: white "
+    "space, line ends, comments, literal spellings), the model's folding ranges are, per procedure declaration in source order, "
+    "(line of the `proc` keyword after the doc comments, line of the closing brace); the proof composes C04's round trip "
+    "(parse = expected tree) with lemmas that table construction and semantic analysis keep ranges and offsets. (2) for ALL "
+    "documents, under the explicit predicate fold_pre (token byte ranges in text order - a theorem for pipeline outputs via C06; the "
+    "procedure declarations' absolute token ranges lie inside the token vector, are ordered and disjoint, and each contains a "
+    "non-comment token) the handler does not panic and its ranges are well-formed: start <= end < number of lines (LSP line model "
+    "of Spec/LspText.v), end_i <= start_{i+1} (C17_wellformed, C17_wellformed_new_doc); one range per procedure declaration of the "
+    "tree in tree order with the stated extents (C17_count, C17_extents). NOT proved: that the parser's tree satisfies the tree "
+    "half of fold_pre for EVERY text (malformed ones included) - the judge evaluates fold_pre on every document of the run and it "
+    "must hold. The tie between model and code is the correspondence (model = server on every document of the run, kernel "
+    "vm_compute sample); the implementation-only oracle recomputes the expected ranges from the generator's own token offsets.")
 
 
 def replay(ctx, path):
